@@ -5,7 +5,7 @@
    theorems holds for that run.  Definitions only. *)
 From Coq Require Import ZArith List Bool.
 Import ListNotations.
-From Urwid Require Import PyBase SelectLoop ZmqLoop AdapterLoop SelectLoopSpec AdapterLoopSpec.
+From Urwid Require Import PyBase SelectLoop ZmqLoop AdapterLoop TornadoLoop SelectLoopSpec AdapterLoopSpec.
 Open Scope Z_scope.
 
 Definition tcb_eqb (a b : tcb) : bool :=
@@ -86,9 +86,29 @@ Definition run_asyncio_checked (l : list Z) : list Z :=
   | _ => [-1]
   end.
 
-(* first integer selects the sub-model: 0 = SelectEventLoop, 1 = ZMQEventLoop, 2 = AsyncioEventLoop *)
+(* the tornado sub-model (TornadoEventLoop wrapper over the same asyncio host model), with the checker's verdict *)
+Definition run_tornado_checked (l : list Z) : list Z :=
+  match l with
+  | ns :: r0 =>
+    let '(setup, r1) := dec_actions (Z.to_nat ns) r0 in
+    match r1 with
+    | nb :: r2 =>
+      let '(tbl, r3) := dec_beh (Z.to_nat nb) r2 in
+      match r3 with
+      | ne :: r4 =>
+          let r := tscenario setup (beh_of tbl) (dec_env (Z.to_nat ne) r4) in
+          enc_tresult r ++ [enc_bool (hostok_b (t_hlog ahost (fst r)))]
+      | _ => [-1]
+      end
+    | _ => [-1]
+    end
+  | _ => [-1]
+  end.
+
+(* first integer selects the sub-model: 0 = SelectEventLoop, 1 = ZMQEventLoop, 2 = AsyncioEventLoop, 3 = TornadoEventLoop *)
 Definition run_case (l : list Z) : list Z :=
   match l with
   | 2 :: r => run_asyncio_checked r
+  | 3 :: r => run_tornado_checked r
   | _ => run_case01 l
   end.
